@@ -19,7 +19,7 @@ def _hdr(tag, body, style):
 
 
 def build(primary, sub=None, style='len5', uid=b'Foreign Key <foreign@example.org>', created=1500000000, protect=None, sub_flags=None, extra_uid=None,
-          primary_alg=None, sub_alg=None):
+          primary_alg=None, sub_alg=None, sub_protect='same', primary_flags=b'\x03'):
     """-> (secret transferable key octets, description dict with the signature bodies as written).
     created=None: the pool's own creation times (so that fingerprints equal those of pool.mat(name))"""
     sp = _sp(style)
@@ -54,7 +54,7 @@ def build(primary, sub=None, style='len5', uid=b'Foreign Key <foreign@example.or
         return RS.sign(pm, 0x13, 8, h, u, primary=prim_pub, uid=uidbody)
 
     out += _hdr(13, uid, style)
-    b = selfcert(uid, created + 10, primary_flag=1)
+    b = selfcert(uid, created + 10, flags=primary_flags, primary_flag=1)
     sigs.append(b)
     out += _hdr(2, b, style)
     if extra_uid:
@@ -69,7 +69,7 @@ def build(primary, sub=None, style='len5', uid=b'Foreign Key <foreign@example.or
             if sub_alg == 2 and sub_flags is None:
                 sub_flags = b'\x0c'
         sub_pub = RK.pub_body(sm)
-        out += _hdr(7, RK.sec_body(sm, protect), style)
+        out += _hdr(7, RK.sec_body(sm, protect if sub_protect == 'same' else sub_protect), style)
         signing = sm['alg'] in (1, 17, 19, 22) and sm['alg'] != 18
         if sub_flags is None:
             sub_flags = b'\x0c' if sm['alg'] == 18 else (b'\x02' if sm['alg'] != 1 else b'\x0e')
